@@ -342,8 +342,15 @@ func (r *yieldRewriter) rewriteStmt(
 		// ↓↓ non-trival branch ↓↓
 		return r.rewriteForStmt(stmt, children)
 
-	// rewritten in pass1
-	// case *ast.RangeStmt:
+	// rewritten in pass1, except for the operand kinds that stay a native range
+	// (function, pointer to array, type parameter)
+	case *ast.RangeStmt:
+		// visit the body like the body of any other loop, so that statements
+		// that are not supported in a generator (defer, select, labels, goto)
+		// are rejected here too; a yield left in it is reported after rewriting
+		r.rewriteBlockStmt(stmt.Body, kindFor)
+		children.push(stmt, kindTrival)
+		return children
 
 	case *ast.SelectStmt, *ast.CommClause,
 		*ast.LabeledStmt, *ast.CaseClause,
